@@ -322,8 +322,8 @@ def r7(ctx, prog):
             ctx.ob('C20.R7', '%s|live-iteration' % g.name, hit is None, 'the loop body cannot reach a mutation of watch_alarms_' if hit is None else
                    'the range-for over watch_alarms_ calls %s: an alarm that unsubscribes while the calendar refreshes its subscribers shifts the elements and the next '
                    'alarm is skipped (it keeps the old calendar\'s instant)' % hit, where=g.loc(l['i']))
-    if n < 2:
-        raise AnalysisBroken('expected the two refresh loops of WorkdayCalendar, found %d' % n)
+    if n < 1:
+        raise AnalysisBroken('no loop over the subscribed alarms of WorkdayCalendar found')       # (one shared helper or one loop per update function: both are fine)
 
 
 # (function, days that must be offered strictly after "now"): one full cycle of the configuration's period
@@ -728,4 +728,7 @@ def run(ctx):
     ctx.guard(r13, ctx, prog)
     from rules import C20_replay
     ctx.guard(C20_replay.r14, ctx, prog)
+    from rules import C20_life
+    ctx.guard(C20_life.r15, ctx, prog)
+    ctx.guard(C20_life.r16, ctx, prog)
     return prog
